@@ -29,6 +29,7 @@ class Snap:
         self.note = note
         self.live = True
         self.fileset = None
+        self.op_files, self.op_bulk = [], 0
 
 
 class Sim:
@@ -215,6 +216,12 @@ class Sim:
         self.events.add('user:' + kind)
         return None
 
+    def fileset_key(self, files, bulk=0):
+        eff = {}
+        for p, c in files:
+            eff.setdefault(p % len(self.paths), c % len(self.cfg['contents']))
+        return tuple(sorted(eff.items())) + (('bulk', bulk),)
+
     def _write_fileset(self, slot, files, bulk=0):
         src = os.path.join(self.work, f'src{slot}')
         env.rmtree(src)
@@ -252,11 +259,19 @@ class Sim:
 
     def op_snapshot(self, op, slot=0):
         u = self.user(op['user'])
+        if op.get('repeat_of') is not None:
+            # take exactly the file set of an earlier live snapshot again (by any user)
+            live = self.live()
+            if not live:
+                return None
+            orig = live[op['repeat_of'] % len(live)]
+            op = dict(op, files=orig.op_files, bulk=orig.op_bulk)
+            self.events.add('explicit-repeat')
         src, model = self._write_fileset(slot, op['files'], op.get('bulk', 0))
         if op.get('bulk'):
             self.events.add('bulk-snapshot')
         note = (self.cfg.get('note_prefix', 'note-') + str(self.step)) if op.get('note') else None
-        fileset = tuple(sorted((p % len(self.paths), c % len(self.cfg['contents'])) for p, c in op['files'])) + (('bulk', op.get('bulk', 0)),)
+        fileset = self.fileset_key(op['files'], op.get('bulk', 0))
         before_log = len(self.store.log)
         prior = [s for s in self.live() if s.family == u.family and s.fileset == fileset and model]
         try:
@@ -264,6 +279,7 @@ class Sim:
         except Exception as e:
             return fail('snapshot-error', f'snapshot raised {type(e).__name__}: {e}')
         s = self._register_snapshot(u, res, model, note, fileset)
+        s.op_files, s.op_bulk = op['files'], op.get('bulk', 0)
         uploads = [name for o, name in self.store.log[before_log:] if o in ('upload_stream', 'upload') and name.startswith('data/')]
         if prior and 'c07' in self.checks:
             nchunks = len(self._table(s))
@@ -475,9 +491,9 @@ class Sim:
             u = self.user(sub['user'])
             if sub['op'] == 'snapshot':
                 src, model = self._write_fileset(slot + 1, sub['files'])
-                fileset = tuple(sorted((p % len(self.paths), c % len(self.cfg['contents'])) for p, c in sub['files']))
+                fileset = self.fileset_key(sub['files'])
                 coros.append(self._snapshot_coro(u, 0, src, None))
-                post.append(('snapshot', u, model, fileset))
+                post.append(('snapshot', u, model, (fileset, sub['files'])))
             elif sub['op'] == 'restore':
                 mine = self.own_live(u)
                 if not mine:
@@ -510,7 +526,8 @@ class Sim:
                 return fail('concurrent-error', f'{kind} running concurrently with another non-destructive command '
                             f'raised {type(res).__name__}: {res}')
             if kind == 'snapshot':
-                self._register_snapshot(u, res, x, None, y)
+                sn = self._register_snapshot(u, res, x, None, y[0])
+                sn.op_files = [list(t) for t in y[1]]
             elif kind == 'restore':
                 tree = world.read_tree(y) if os.path.isdir(y) else {}
                 env.rmtree(y)
@@ -738,7 +755,7 @@ def make_machine(prop, tier, ctx, *, checks, encrypted=None, weights=None, extra
     """Rule-based machine whose steps are JSON ops applied to a Sim; the op list is the case."""
     stats, known, check_time = ctx['stats'], ctx['known'], ctx['check_time']
     w = dict(snapshot=3, add_user=2, delete=2, clean=1, restore=1, list=1, concurrent=1,
-             cross=0, plant=0, unlock_wrong=0, faulty=0, bulk=0)
+             cross=0, plant=0, unlock_wrong=0, faulty=0, bulk=0, repeat=1)
     w.update(weights or {})
 
     class Machine(RuleBasedStateMachine):
@@ -785,6 +802,8 @@ def make_machine(prop, tier, ctx, *, checks, encrypted=None, weights=None, extra
 
     add('snapshot', w['snapshot'], dict(u=small, f=fileset, c=st.integers(0, 2), n=st.booleans()),
         lambda u, f, c, n: {'op': 'snapshot', 'user': u, 'files': f, 'client': c, 'note': n})
+    add('repeat_snapshot', w['repeat'], dict(u=small, r=small, c=st.integers(0, 2)),
+        lambda u, r, c: {'op': 'snapshot', 'user': u, 'files': [], 'client': c, 'note': False, 'repeat_of': r})
     add('bulk_snapshot', w['bulk'], dict(u=small, f=fileset, c=st.integers(1, 2), b=st.sampled_from([1040, 1100, 1500])),
         lambda u, f, c, b: {'op': 'snapshot', 'user': u, 'files': f, 'client': c, 'note': True, 'bulk': b})
     add('add_user', w['add_user'], dict(k=st.sampled_from(['shared', 'clone', 'independent']), of=small, kdf=st.integers(0, 2)),
